@@ -45,6 +45,50 @@ CHECKS = {
    note=TB + "Hypotheses as for C02; 'another message' is reflected as another value of H(m) (hash collisions excluded by hypothesis).",
    technique="Coq proof (invariant: collected entries are valid, distinct, in range) + differential correspondence",
    ref="5/C03"),
+ "C08": dict(
+   text="Coq theorems over the symbolic model of Verifier.ProcessEncryptedDeal / decryptDeal (Models/Vss.v): ANY response "
+        "(approval or complaint) presupposes that the encrypted deal is signed by the verifier's dealer over exactly its DHKey "
+        "bytes, decodes to the ephemeral key the ciphertext was sealed with for this verifier's own key under this dealer and "
+        "member list, carries the same 12-byte nonce and an intact ciphertext (C08_any_modification_rejected, C08_only_addressee, "
+        "C08_never_panics); the response is Approval iff share, threshold, index and session id check out, i.e. iff the share is "
+        "the committed polynomial at the recipient's index (C08_approve_iff_*). Pinned-code panics refuted by witnesses. Tie: "
+        "correspondence on the real Verifier with real AES-GCM/HKDF/Schnorr: every byte of every field under 3 masks (stride 7 "
+        "quick, 1 thorough), truncations/extensions, field swaps between deals, other recipient / dealer / member list, "
+        "unreduced and trailing-byte key encodings, inconsistent plaintexts sealed with the package's own derivation.",
+   note=TB + "partial (symbolic cryptography): Schnorr unforgeability, AES-GCM integrity, HKDF and hash collision freeness "
+        "are modelled as ideal primitives; the harness's description of each message (which field it altered) is trusted.",
+   technique="Coq proof (inversion of the decision function under ideal-primitive hypotheses) + differential correspondence "
+             "with per-byte mutation of real encrypted deals",
+   ref="5/C08"),
+ "C05": dict(
+   text="Coq theorems over Models/Vss.v + Models/Dkg.v (DistKeyGenerator, repaired code), no assumption on dealers, plaintexts, "
+        "order or other responses: a deal is approved iff consistent (C05_bad_share_not_approved); if honest i approved its deal "
+        "from a dealer and accepted honest k's own response about that dealer then i and k hold the same commitments and "
+        "threshold (C05_same_dealer_same_commitments: the binding the pinned code lacked); equal commitments give equal public "
+        "polynomial (C05_same_commitments_same_key); a finishing member's share lies on its polynomial (C05_share_on_polynomial); "
+        "a session that finishes sent only approvals (C05_no_approval_no_finish). Tie: real DistKeyGenerators driven through "
+        "scripted sessions (n=3..5, one Byzantine member, 14 deviation scenarios incl. equivocation with honest and crossed "
+        "session ids, other-degree polynomials, forged/re-signed/foreign/duplicated/nil responses) vs the extracted model call "
+        "by call, plus a joint-outcome judge (same key, PubPoly.Check).",
+   note=TB + "Symbolic cryptography as for C08; unforgeability enters as the hypothesis that the response i accepted as k's is "
+        "the one k produced. Double faults and every injection position are sampled (random orders), not enumerated.",
+   technique="Coq proof (state invariants of the verifier/aggregator, session-id injectivity) + scripted differential "
+             "correspondence with an adversary catalogue",
+   ref="5/C04-C05"),
+ "C04": dict(
+   text="Coq theorems (schedule-free: they hold for whatever state DistKeyShare succeeds in): with honest dealers a finished "
+        "member holds the commitment of the SUM of the dealers' polynomials and that sum at its own index (C04_agreement), so "
+        "any t shares reconstruct the sum of the secrets behind the group key (C04_shares_reconstruct = C09 on the sum); the "
+        "share lies on the polynomial. Tie: (a) library level as C05 with random delivery orders and re-delivered deals vs the "
+        "model; (b) n real pdkg instances (Loop + Grouping pipeline) over an in-memory network under 10 schedules (skewed "
+        "start, deals or a public key late to one node, every message twice, a Responses message re-delivered, lost "
+        "acknowledgement + retry, late duplicates of a completed stage, transient send failure) judged on the joint outcome "
+        "(all finish, same key, share on polynomial, t shares recover).",
+   note=TB + "partial: liveness ('every member finishes') is established by the networked runs, not by a theorem; timing "
+        "(500 ms retry, deadlines) is not modelled; a send that fails outright is retried by a goroutine that dies with the "
+        "sender's session, so for that schedule only safety is judged (premise 'delivered at least once' not met).",
+   technique="Coq proof (homomorphism of commitments and shares over the sum) + scripted and networked differential runs",
+   ref="5/C04-C05"),
  "C07": dict(
    text="Coq theorems over the Gallina model of the content-building stages (Models/Stages.v: padOrTrim, genSysRandom, "
         "genUserRandom, genQueryResult, the strip in recoverSign, choseSubmitter): for every last randomness < 2^256 the signed "
